@@ -313,6 +313,12 @@ func filterFamily() []*kit.Term {
 		kit.TFN("ns-is-n0", isN0), // extensionally equal to member 4, not comparable
 		kit.TLSel(&metav1.LabelSelector{MatchExpressions: []metav1.LabelSelectorRequirement{{Key: "l", Operator: metav1.LabelSelectorOpNotIn, Values: []string{"x"}}}}),
 		kit.TLabels(map[string]string{"l": "x"}), // rebuilt-equal to member 2
+		// a chain of NSName filters ordered by inclusion (an Equals that is only a
+		// subset test would take a widening Refilter for "unchanged")
+		kit.TNSName(),
+		kit.TNSName(nsnameNew("n0", "a")),
+		kit.TNSName(nsnameNew("n0", "a"), nsnameNew("n1", "c")),
+		kit.TNSName(nsnameNew("n1", "c"), nsnameNew("n0", "a"), nsnameNew("n0", "b")),
 	}
 }
 
